@@ -46,6 +46,14 @@ def augment_case(ctx, case):
     fai = case.get("first_aug_identity", True)
     sig = dict(kind="augment", family=fam, first_aug_identity=fai)
     torch.manual_seed(seed)
+    for (B0, A0, fai0) in case.get("before") or []:
+        # history in the same process: earlier augmentation calls producing the SAME number of rows with other factors / options
+        try:
+            StateAugmentation(num_augment=A0, augment_fn=fam, first_aug_identity=fai0)(TensorDict({"locs": coords(case["coords"], B0, n, g), "other": torch.arange(B0)}, batch_size=[B0]))
+            ctx.count("c15_augment_history_calls")
+            sig["history"] = True
+        except Exception:
+            pass
     try:
         aug = StateAugmentation(num_augment=A, augment_fn=fam, first_aug_identity=fai)
         out = aug(td.clone())
@@ -199,6 +207,14 @@ def eval_case(ctx, case):
                 cands = [strip(ca[r].tolist(), name) for r in range(pos, rows, Bb)]
                 cvals = [O.objective(insts[i], c) for c in cands if not any(x[1] == "violated" for x in O.violations(insts[i], c))]
                 ctx.count("c15_candidates", len(cands))
+                if "multistart" in method and name in ("tsp", "cvrp", "sdvrp") and not extra:
+                    # with num_starts = number of nodes / customers every possible first move must be among the candidates (otherwise the
+                    # plain greedy rollout may be missing and best-of-k can be worse than greedy)
+                    firsts = set(c[0] for c in cands if c)
+                    ctx.count("c15_candidate_start_sets")
+                    if len(firsts) < n:
+                        ctx.violation(dict(sig, q="candidate_starts_incomplete"), f"instance {i}: the {len(cands)} candidate rollouts start from {sorted(firsts)} only ({n} first moves exist and were requested)", dict(N=N, bs=bs, n=n))
+                        return
                 if cvals:
                     best = max(cvals)
                     if got < best - tol(best):
@@ -208,6 +224,19 @@ def eval_case(ctx, case):
                         ctx.violation(dict(sig, q="better_than_all_candidates"), f"instance {i}: reported reward {got} > every candidate rollout of that instance ({best})", dict(N=N, bs=bs))
                         return
             ctx.nontrivial_case(dict(i=insts[i], a=acts, m=method))
+    if "multistart" in method and name in ("tsp", "cvrp", "sdvrp") and not extra:
+        # num_starts = number of customers / nodes: every first move is forced once, so the plain greedy rollout (whatever its first
+        # move) is among the candidates and best-of-k can never be worse than it
+        try:
+            rg = evaluate_policy(env, pol, ds, method="greedy", batch_size=bs, auto_batch_size=False)["rewards"]
+        except Exception:
+            rg = None
+        if rg is not None and rg.shape[0] == N:
+            ctx.count("c15_never_worse_than_greedy_checks", N)
+            for i in range(N):
+                if float(rewards[i]) < float(rg[i]) - tol(float(rg[i])):
+                    ctx.violation(dict(sig, q="worse_than_greedy"), f"instance {i}: {method} reports {float(rewards[i])}, plain greedy decoding reaches {float(rg[i])} (its rollout should be among the {n} forced starts)", dict(N=N, bs=bs, n=n))
+                    return
     ctx.sample(dict(case=case, avg=float(res["avg_reward"])))
 
 
